@@ -136,6 +136,10 @@ struct World {
     loops: Vec<(u32, u64)>,
     disciplined: bool,
     overrec_ever: bool,
+    trace_overrec: bool,
+    d4: bool,
+    groups: u32,
+    escaped: bool,
     pad: usize,
     links_buf: Vec<(*const Node, u8, usize)>,
     in_sweep: bool,
@@ -203,8 +207,31 @@ fn hook(ev: u8, addr: usize) {
             }
         }
         TRACE_POP => w.pops += 1,
-        TRACE_VISIT => w.visits += 1,
+        TRACE_VISIT => {
+            w.visits += 1;
+            // known-finding class D4: a traced object has recorded more
+            // adoptions of a target than its value holds handles to it
+            if let Some(s) = shadow_of(addr) {
+                let a = s.id;
+                let over = w.ledger.iter().any(|e| {
+                    e.0 == a && w.alive[e.1 as usize] && e.2 > unsafe { held(a, e.1) }
+                });
+                if over {
+                    w.trace_overrec = true;
+                }
+            }
+        }
+        GROUP => {
+            w.groups += 1;
+            if w.trace_overrec {
+                w.d4 = true;
+            }
+            return;
+        }
         _ => {}
+    }
+    if ev == TRACE_START {
+        w.trace_overrec = false;
     }
     if let Some(s) = shadow_of(addr) {
         let id = s.id as i64;
@@ -580,6 +607,9 @@ pub unsafe fn exec_act(a: &Act, me: Option<*mut Node>) -> Res {
                 return Res::Inv;
             }
             let sl = std::ptr::replace(sp, Slot::Empty);
+            if o == ORef::Slf && matches!(sl, Slot::Strong(..)) {
+                w().escaped = true;
+            }
             *reg(dst) = match sl {
                 Slot::Strong(rc, id) => Reg::Strong(rc, id),
                 Slot::Weak(wk, id) => Reg::Weak(wk, id),
@@ -769,6 +799,18 @@ pub unsafe fn exec_act(a: &Act, me: Option<*mut Node>) -> Res {
         }
         Act::Deref(h) => {
             let Some((p, id)) = strong_href(h, me) else { return Res::Inv };
+            let gone = w()
+                .shadow
+                .iter()
+                .rev()
+                .find(|s| s.id == id)
+                .map(|s| s.flags & (VALUE_GONE | FREED) != 0)
+                .unwrap_or(false);
+            if gone {
+                // the value was moved out of the box: reading it is a stale read
+                set_fault("valuemoved", id as i64);
+                return Res::Nat(0);
+            }
             let got = (**p).id;
             if got == POISON || !w().alive[id as usize] {
                 set_fault("valuemoved", id as i64);
@@ -1092,10 +1134,7 @@ unsafe fn c03_after_drop(x: u32) {
         }
         i += 1;
     }
-    if set.iter().any(|a| w.loops.iter().any(|l| l.0 == *a)) {
-        // known finding D3 is classified by the caller via "loop=1"
-        return;
-    }
+    let has_loop = set.iter().any(|a| w.loops.iter().any(|l| l.0 == *a));
     let n = w.next_id as usize;
     let mut outside = vec![0u64; n];
     for r in 0..NREGS {
@@ -1125,14 +1164,21 @@ unsafe fn c03_after_drop(x: u32) {
             return;
         }
         for &a in set.iter() {
-            let rec = w.ledger.iter().find(|e| e.0 == a && e.1 == y).map(|e| e.2).unwrap_or(0);
+            let mut rec = w.ledger.iter().find(|e| e.0 == a && e.1 == y).map(|e| e.2).unwrap_or(0);
+            if a == y {
+                // a self handle recorded through itself is a recorded adoption too
+                rec += w.loops.iter().find(|l| l.0 == a).map(|l| l.1).unwrap_or(0);
+            }
             if rec != held(a, y) {
                 return;
             }
         }
     }
     set.sort();
-    set_oracle(format!("C03:orphaned-group-not-collected:{:?}", set).replace(' ', ""));
+    set_oracle(
+        format!("C03:orphaned-group-not-collected{}:{:?}", if has_loop { "-loopback" } else { "" }, set)
+            .replace(' ', ""),
+    );
 }
 
 fn reset_world(pad: usize) {
@@ -1166,6 +1212,10 @@ fn reset_world(pad: usize) {
             loops: Vec::with_capacity(16),
             disciplined: true,
             overrec_ever: false,
+            trace_overrec: false,
+            d4: false,
+            groups: 0,
+            escaped: false,
             pad,
             links_buf: Vec::with_capacity(64),
             in_sweep: false,
@@ -1342,6 +1392,13 @@ fn run_history(id: &str, mode: &str, body: &str, pad: usize, out: &mut impl Writ
         if !w_.loops.is_empty() {
             line.push_str(" loop=1");
         }
+        if w_.d4 {
+            line.push_str(" d4=1");
+        }
+        if w_.escaped {
+            line.push_str(" esc=1");
+        }
+        let _ = write!(line, " groups={}", w_.groups);
         if let Some(o) = &w_.oracle {
             let _ = write!(line, " oracle={}", o);
         }
